@@ -1,4 +1,4 @@
-; empty-dimensions-array: Variable(name='x', type=INTEGER, dimensions=()) and the route through Array.rescope
+; empty-dimensions-array: Variable(name='x', type=INTEGER, dimensions=()); second line: the (repaired) route through Array.rescope, regression
 (hist (tdefs) (ops (create ("x") none (ty integer none 0) none 0)))
 (hist (tdefs) (ops (newscope none) (settype 0 "x" (ty integer none 0)) (create ("x") none (ty real 1 0) none none) (rescope 0 0)))
 ; qualified-name-without-parent: Variable(name='q%a', scope=s) is named 'a' and overwrites the entry of 'a'
